@@ -42,6 +42,15 @@ def Statement_pushdown : Prop :=
   ∀ (n : Nat) (D : Dataset) (P : Alg), D.WF → P.safe = true → WellScoped n P →
     ∀ (g : Graph) (μ0 : Row n), (Model.evalPart D g μ0 P).Perm (push μ0 (Spec.eval D g Row.empty P))
 
+/-- Round g — the context-sensitive form.  `P.safeIn ctx` (Safe.lean) demands an exact `_vars` annotation only for
+    variables that the pushed-in bindings can bind at that node, following the evaluator's data flow (nothing at the
+    top of a query; the left side's may-bind set added on the right of a lazy join and of an OPTIONAL; nothing below a
+    sub-select and on the right of MINUS).  Push-down is exact for every `μ0` that binds at most `ctx`. -/
+def Statement_pushdown_ctx : Prop :=
+  ∀ (n : Nat) (D : Dataset) (P : Alg) (ctx : List Nat), D.WF → P.safeIn ctx = true → WellScoped n P →
+    ∀ (g : Graph) (μ0 : Row n), μ0.domIn ctx →
+      (Model.evalPart D g μ0 P).Perm (push μ0 (Spec.eval D g Row.empty P))
+
 /-- The property without the `Safe` hypothesis — what C04 literally asks of every query.  FALSE for the pinned
     code (see the `_witness` theorems). -/
 def Statement_pushdown_unconditional : Prop :=
@@ -70,6 +79,12 @@ def Statement_eval_correct : Prop :=
   ∀ (n : Nat) (D : Dataset) (q : Query) (mint : Nat → Term), D.WF → q.safe = true → WellScoped n q.pattern →
     q.groundTemplate → ResultEq (Model.evalQuery (n := n) mint D q) (Spec.evalQuery D q)
 
+/-- Round g: the same under the weaker hypothesis `q.safeTop` (= `q.pattern.safeIn []`: a query is evaluated with
+    nothing pushed in at its top, `initBindings = {}`). -/
+def Statement_eval_correct_top : Prop :=
+  ∀ (n : Nat) (D : Dataset) (q : Query) (mint : Nat → Term), D.WF → q.safeTop = true → WellScoped n q.pattern →
+    q.groundTemplate → ResultEq (Model.evalQuery (n := n) mint D q) (Spec.evalQuery D q)
+
 /-- What `BNode()` is assumed to do for the supply `mint` (`mint k` = the node returned by the k-th call): the nodes
     are pairwise distinct, and none of them is among `avoid` (the nodes of the data and the constants of the query). -/
 def FreshSupply (mint : Nat → Term) (avoid : List Term) : Prop :=
@@ -95,7 +110,36 @@ def Statement_construct_correct_blank : Prop :=
         t ∈ Model.fillAll mint tpl ((Model.evalPart D D.dflt (Row.empty : Row n) p).map (·.restrict pv)) 0 ↔
         t ∈ Spec.instNamed tpl ((Spec.eval D D.dflt (Row.empty : Row n) p).zip names)
 
+/-- Round g: `Statement_construct_correct_blank` under the weaker hypothesis `p.safeIn []`. -/
+def Statement_construct_correct_blank_top : Prop :=
+  ∀ (n : Nat) (D : Dataset) (tpl : List TTP) (pv : List Nat) (p : Alg) (mint : Nat → Term) (avoid : List Term),
+    D.WF → p.safeIn [] = true → WellScoped n p →
+    (∀ tp ∈ tpl, ∀ v ∈ tposVars tp.1 ++ tposVars tp.2.1 ++ tposVars tp.2.2, v ∈ pv ∨ v ∉ p.may) →
+    FreshSupply mint avoid →
+    ∃ names : List (Nat → Term),
+      names.length = (Spec.eval D D.dflt (Row.empty : Row n) p).length ∧
+      (names.flatMap (fun ν => (tplLabels tpl).map ν)).Nodup ∧
+      (∀ ν ∈ names, ∀ l, (∃ k, ν l = mint k) ∧ ν l ∉ avoid) ∧
+      ∀ t : Triple,
+        t ∈ Model.fillAll mint tpl ((Model.evalPart D D.dflt (Row.empty : Row n) p).map (·.restrict pv)) 0 ↔
+        t ∈ Spec.instNamed tpl ((Spec.eval D D.dflt (Row.empty : Row n) p).zip names)
+
 /-! ### Proved -/
+
+/-- round g: every operator, hypothesis `safeIn ctx` + "the pushed-in bindings bind at most `ctx`" -/
+theorem pushdown_ctx : Statement_pushdown_ctx := by
+  intro n D P ctx hD hs hws g μ0 h0
+  exact pushdown_induction hD P ctx hs hws g μ0 h0
+
+/-- exact annotations (`Alg.safe`) are safe in every context: `pushdown` below is the instance `ctx` = all variables -/
+theorem safeIn_of_safe (P : Alg) (ctx : List Nat) (h : P.safe = true) : P.safeIn ctx = true :=
+  Alg.safeIn_of_safe P ctx h
+
+/-- at the top of a query nothing is pushed in: the model's bag IS the algebra's bag (hypothesis `safeIn []`) -/
+theorem evalPart_top0 (n : Nat) (D : Dataset) (P : Alg) (hD : D.WF) (hs : P.safeIn [] = true)
+    (hws : WellScoped n P) (g : Graph) :
+    (Model.evalPart D g (Row.empty : Row n) P).Perm (Spec.eval D g Row.empty P) := by
+  simpa using pushdown_induction hD P [] hs hws g (Row.empty : Row n) (Row.domIn_empty _)
 
 /-- every operator of the property, EXISTS / NOT EXISTS included: the only hypothesis beyond well-formedness is `Safe` -/
 theorem pushdown : Statement_pushdown := by
@@ -114,13 +158,13 @@ theorem evalPart_top (n : Nat) (D : Dataset) (P : Alg) (hD : D.WF) (hs : P.safe 
     (Model.evalPart D g (Row.empty : Row n) P).Perm (Spec.eval D g Row.empty P) := by
   simpa using pushdown n D P hD hs hws g (Row.empty : Row n)
 
-theorem eval_correct : Statement_eval_correct := by
+theorem eval_correct_top : Statement_eval_correct_top := by
   intro n D q mint hD hs hws hg
   cases q with
   | select pv p =>
-    exact ⟨rfl, (evalPart_top n D p hD hs hws D.dflt).map _⟩
+    exact ⟨rfl, (evalPart_top0 n D p hD hs hws D.dflt).map _⟩
   | ask pv p =>
-    have h := evalPart_top n D p hD hs hws D.dflt
+    have h := evalPart_top0 n D p hD hs hws D.dflt
     simp only [Model.evalQuery, Spec.evalQuery, ResultEq]
     have : ((Model.evalPart D D.dflt (Row.empty : Row n) p).map (·.restrict pv)).isEmpty =
         (Spec.eval D D.dflt (Row.empty : Row n) p).isEmpty := by
@@ -128,7 +172,7 @@ theorem eval_correct : Statement_eval_correct := by
       exact isEmpty_of_perm h
     rw [this]
   | construct tpl pv p =>
-    have h := evalPart_top n D p hD hs hws D.dflt
+    have h := evalPart_top0 n D p hD hs hws D.dflt
     obtain ⟨hg1, hg2⟩ := hg
     simp only [Model.evalQuery, Spec.evalQuery, ResultEq]
     intro t
@@ -163,6 +207,10 @@ theorem eval_correct : Statement_eval_correct := by
         | none => rfl
         | some y => exact absurd ((hb μ hμ).2 v (by simp [hget])) h1
 
+theorem eval_correct : Statement_eval_correct := by
+  intro n D q mint hD hs hws hg
+  exact eval_correct_top n D q mint hD (Alg.safeIn_of_safe q.pattern [] hs) hws hg
+
 theorem eval_correct_partial (n : Nat) (D : Dataset) (q : Query) (mint : Nat → Term) (hD : D.WF)
     (hs : q.safe = true) (hws : WellScoped n q.pattern) (hg : q.groundTemplate) :
     ResultEq (Model.evalQuery (n := n) mint D q) (Spec.evalQuery D q) :=
@@ -188,9 +236,9 @@ theorem construct_correct (n : Nat) (D : Dataset) (tpl : List TTP) (pv : List Na
   eval_correct n D (.construct tpl pv p) mint hD hs hws hg
 
 /-- CONSTRUCT with template blank nodes: the model's graph is the specification's, up to the naming of the minted nodes -/
-theorem construct_correct_blank : Statement_construct_correct_blank := by
+theorem construct_correct_blank_top : Statement_construct_correct_blank_top := by
   intro n D tpl pv p mint avoid hD hs hws hv hfresh
-  have hperm := evalPart_top n D p hD hs hws D.dflt
+  have hperm := evalPart_top0 n D p hD hs hws D.dflt
   have hb : ∀ μ ∈ Spec.eval D D.dflt (Row.empty : Row n) p, BoundsOK μ p.must p.may :=
     fun μ hμ => spec_bounds p (Alg.inFragment_true p) hws D.dflt μ hμ
   obtain ⟨N2, hp2, hl2, hz⟩ := perm_zip (hperm.map (·.restrict pv))
@@ -212,6 +260,10 @@ theorem construct_correct_blank : Statement_construct_correct_blank := by
       cases hget : μ.get v with
       | none => rfl
       | some y => exact absurd ((hb μ hμ).2 v (by simp [hget])) h1
+
+theorem construct_correct_blank : Statement_construct_correct_blank := by
+  intro n D tpl pv p mint avoid hD hs hws hv hfresh
+  exact construct_correct_blank_top n D tpl pv p mint avoid hD (Alg.safeIn_of_safe p [] hs) hws hv hfresh
 
 /-- the specification's own graph is the instantiation under the canonical naming `Term.fresh i` of solution `i`,
     which is injective on (solution, label) as well -/
@@ -246,6 +298,8 @@ def k2Pattern : Alg :=
 def k2Data : Dataset := ⟨[(i 1, i 10, i 0)], []⟩
 
 example : k1Pattern.safe = false ∧ k2Pattern.safe = false := by decide
+/-- the witnesses are outside the context-sensitive hypothesis as well (K1: `?v2` is pushed in by the lazy join) -/
+example : k1Pattern.safeIn [] = false ∧ k2Pattern.safeIn [] = false := by decide
 
 theorem pushdown_witness_K1 :
     (Model.evalPart k1Data k1Data.dflt (Row.empty : Row 4) k1Pattern).length = 1 ∧
@@ -264,7 +318,7 @@ def k4Pattern : Alg :=
     (.bgp [tp (.var 0) (.const (i 10)) (.var 1)]) [0, 1] false
 def k4Data : Dataset := ⟨[(i 0, i 10, i 1), (i 0, i 11, i 2)], []⟩
 
-example : k4Pattern.safe = false := by decide
+example : k4Pattern.safe = false ∧ k4Pattern.safeIn [] = false := by decide
 
 theorem pushdown_witness_K4 :
     (Model.evalPart k4Data k4Data.dflt (Row.empty : Row 3) k4Pattern).length = 0 ∧
@@ -319,6 +373,26 @@ example : exPattern3.safe = true ∧ (∀ v ∈ exPattern3.allVars, v < 3) ∧ e
 example : (Model.evalPart exData3 exData3.dflt (Row.empty : Row 3) exPattern3).length = 3 := by decide +kernel
 example : (Spec.eval exData3 exData3.dflt (Row.empty : Row 3) exPattern3).length = 3 := by decide +kernel
 example : (Row.empty : Row 3).set 2 (i 20) ∈ Spec.eval exData3 exData3.dflt (Row.empty : Row 3) exPattern3 := by
+  decide +kernel
+
+/-- round g — `{ ?v0 <10> ?v1 OPTIONAL { ?v1 <11> ?v2 } FILTER(!bound(?v2)) }`: `?v2` is listed in the FILTER's `_vars` but
+    bound only where the OPTIONAL matches, so `Alg.safe` is false; nothing can be pushed in at the top of a query, so
+    `safeIn []` holds and `pushdown_ctx` / `eval_correct_top` cover the query.  Under a context that binds `?v2` the
+    hypothesis fails (`safeIn [2] = false`) and so does push-down: the model forgets nothing (`?v2 ∈ _vars`), sees the
+    pushed-in `?v2` as bound and drops the solution the algebra keeps — the hypothesis of `pushdown_ctx` is sharp. -/
+def exPattern5 : Alg :=
+  .filter (.not (.bound 2))
+    (.leftJoin (.bgp [tp (.var 0) (.const (i 10)) (.var 1)]) (.bgp [tp (.var 1) (.const (i 11)) (.var 2)])
+      (.const (.bool true)) (some [0, 1]) (some [1, 2])) [0, 1, 2] false
+def exData5 : Dataset := ⟨[(i 0, i 10, i 1), (i 1, i 10, i 2), (i 2, i 11, i 0)], []⟩
+
+example : exPattern5.safe = false ∧ exPattern5.safeIn [] = true ∧ exPattern5.safeIn [2] = false ∧
+    (∀ v ∈ exPattern5.allVars, v < 3) := by decide
+example : (Model.evalPart exData5 exData5.dflt (Row.empty : Row 3) exPattern5).length = 1 ∧
+    (Spec.eval exData5 exData5.dflt (Row.empty : Row 3) exPattern5).length = 1 := by decide +kernel
+theorem pushdown_ctx_sharp :
+    (Model.evalPart exData5 exData5.dflt ((Row.empty : Row 3).set 2 (i 5)) exPattern5).length = 0 ∧
+    (push ((Row.empty : Row 3).set 2 (i 5)) (Spec.eval exData5 exData5.dflt (Row.empty : Row 3) exPattern5)).length = 1 := by
   decide +kernel
 
 /-- the supply of the compiled driver — `BNode()` number k is `Term.fresh k 0` — is fresh for every list of terms
